@@ -38,7 +38,7 @@ PINS = {
             ('base_metric.py', '_PairsClassifierMixin._validate_calibration_params')],
     'C20': [('_util.py', 'components_from_metric'), ('_util.py', '_check_sdp_from_eigen'),
             ('_util.py', '_initialize_metric_mahalanobis'), ('_util.py', '_initialize_components'),
-            ('_util.py', '_auto_select_init')],
+            ('_util.py', '_auto_select_init'), ('_util.py', '_pseudo_inverse_from_eig')],
 }
 
 
